@@ -112,6 +112,28 @@ fn corrupt_digest(d: [u8; 16], variant: usize) -> [u8; 16] {
     o
 }
 
+/// Status texts a peer is not supposed to send: invalid UTF-8, and valid text that is unknown, long, and has
+/// multi-byte characters starting at every byte offset up to 80 (whatever trims or quotes the text cuts there).
+fn garbage_status(variant: usize) -> Vec<u8> {
+    let mut m = vec![b's'];
+    match variant % 90 {
+        0 => m.extend_from_slice(&[0xff, 0xfe, 1]),
+        1 => m.extend_from_slice(&[0xff, 0x00, 0x80]),
+        2 => m.extend_from_slice("ok ".as_bytes()),
+        3 => m.extend_from_slice("OK".as_bytes()),
+        4 => m.extend(std::iter::repeat(b'x').take(65_000)),
+        5 => m.extend_from_slice("okay_simultaneous".as_bytes()),
+        k => {
+            m.extend(std::iter::repeat(b'n').take(k - 6));
+            m.extend_from_slice(["\u{e9}\u{e9}\u{e9}", "\u{20ac}\u{e9}", "\u{1d518}x"][k % 3].as_bytes());
+            m.extend_from_slice(b"_the_node_is_not_welcome_here");
+        }
+    }
+    m
+}
+
+static GARBAGE: std::sync::atomic::AtomicUsize = std::sync::atomic::AtomicUsize::new(0);
+
 static CORRUPTION: std::sync::atomic::AtomicUsize = std::sync::atomic::AtomicUsize::new(0);
 
 #[derive(Clone)]
@@ -162,7 +184,7 @@ fn run_sequence(ctx: &Ctx, cfg: &Cfg, seq: &[Act], origin: &str) {
                 Act::StatusNok => sm.handle_status(b"snok").map(|_| None).map_err(|e| e.to_string()),
                 Act::StatusNotAllowed => sm.handle_status(b"snot_allowed").map(|_| None).map_err(|e| e.to_string()),
                 Act::StatusAlive => sm.handle_status(b"salive").map(|_| None).map_err(|e| e.to_string()),
-                Act::StatusGarbage => sm.handle_status(&[b's', 0xff, 0xfe, 1]).map(|_| None).map_err(|e| e.to_string()),
+                Act::StatusGarbage => sm.handle_status(&garbage_status(GARBAGE.fetch_add(1, std::sync::atomic::Ordering::Relaxed))).map(|_| None).map_err(|e| e.to_string()),
                 Act::StatusEmpty => sm.handle_status(&[]).map(|_| None).map_err(|e| e.to_string()),
                 Act::Complement => sm.prepare_complement().map(Some).map_err(|e| e.to_string()),
                 Act::ChallengeValid => sm.handle_challenge(&peer_challenge_msg(cfg, cfg.peer_challenge)).map(|_| None).map_err(|e| e.to_string()),
@@ -486,7 +508,7 @@ async fn play(peer: &mut Peer, dev: Dev, silent: std::sync::Arc<std::sync::Mutex
             return None;
         }
         StatusGarbage => {
-            let _ = peer.write_frame2(&[b's', 0xff, 0x00, 0x80]).await;
+            let _ = peer.write_frame2(&garbage_status(GARBAGE.fetch_add(1, std::sync::atomic::Ordering::Relaxed))).await;
             return None;
         }
         StatusShortThenSilent | HalfPrefixThenSilent => {
